@@ -11,13 +11,16 @@ import (
 )
 
 // decimal numerals with their exact reading, and non-numerals
-var zzDecimalStrings = []string{"0", "-1", "1", "1.0", "1e0", "1000000", "1E6", "9007199254740993", "0.5", "-2.5"}
-var zzDecimalIsInt = []bool{true, true, true, false, false, true, false, true, false, false}
-var zzDecimalInt = []int64{0, -1, 1, 1, 1, 1000000, 1000000, 9007199254740993, 0, -2}
-var zzDecimalFloat = []float64{0, -1, 1, 1, 1, 1000000, 1000000, 9007199254740993, 0.5, -2.5}
+// (an integer numeral outside int64 - the last two - has no int64 reading: it is read as the float64 nearest to it)
+var zzDecimalStrings = []string{"0", "-1", "1", "1.0", "1e0", "1000000", "1E6", "9007199254740993", "0.5", "-2.5", "+1", "010", "9223372036854775807", "-9223372036854775808", "9223372036854775808", "-9223372036854775809"}
+var zzDecimalIsInt = []bool{true, true, true, false, false, true, false, true, false, false, true, true, true, true, false, false}
+var zzDecimalInt = []int64{0, -1, 1, 1, 1, 1000000, 1000000, 9007199254740993, 0, -2, 1, 10, 9223372036854775807, -9223372036854775808, 0, 0}
+var zzDecimalFloat = []float64{0, -1, 1, 1, 1, 1000000, 1000000, 9007199254740993, 0.5, -2.5, 1, 10, 9223372036854775807, -9223372036854775808, 9223372036854775808, -9223372036854775809}
 
-// ("1_0" is left out: strconv.ParseFloat reads it as 10, its status as a decimal numeral is arguable)
-var zzNonNumerals = []string{"", "abc", "0x10", "0b1", " 1", "true", "1 ", "--1"}
+// strings that are not decimal numerals, among them every other spelling strconv.ParseFloat and
+// ParseInt(s, 0, 64) accept: hexadecimal floats and integers, digit-separating underscores, the
+// words for infinity and not-a-number
+var zzNonNumerals = []string{"", "abc", "0x10", "0b1", " 1", "true", "1 ", "--1", "0x1p4", "1_0", "Inf", "+Inf", "-inf", "infinity", "NaN", "0o7", "1e", "e1", ".", "1.5.2"}
 
 const (
 	zzClsNil = iota
@@ -246,7 +249,9 @@ func ZZ_C06_string_number() {
 		case numIsInt:
 			// numeral with a fraction/exponent: denotes the integer iff the
 			// integer converts to exactly that real value
-			want = zz.And(float64(ni) == zzDecimalFloat[k], int64(zzDecimalFloat[k]) == ni)
+			// (a value outside int64 - only the float64 2^63 can occur - denotes no integer)
+			inRange := zzDecimalFloat[k] >= -9223372036854775808.0 && zzDecimalFloat[k] < 9223372036854775808.0
+			want = inRange && zz.And(float64(ni) == zzDecimalFloat[k], int64(zzDecimalFloat[k]) == ni)
 		default:
 			want = nf == zzDecimalFloat[k]
 		}
